@@ -422,7 +422,13 @@ func (c *Container) computeAllowedMethods(req *Request) []string {
 	// Go through all RegisteredWebServices() and all its Routes to collect the options
 	methods := []string{}
 	requestPath := req.Request.URL.Path
-	for _, ws := range c.RegisteredWebServices() {
+	webServices := c.RegisteredWebServices()
+	// requests for this URL are only dispatched to the WebService the router selects for it
+	selected, _, _ := c.router.SelectRoute(webServices, req.Request)
+	for _, ws := range webServices {
+		if selected != nil && ws != selected {
+			continue
+		}
 		matches := ws.pathExpr.Matcher.FindStringSubmatch(requestPath)
 		if matches != nil {
 			finalMatch := matches[len(matches)-1]
